@@ -56,6 +56,7 @@ def parse_case(s):
     for i in range(0, len(hx), 12):
         v = [int(hx[i:i+4], 16)] + [int(hx[i+4+2*k:i+6+2*k], 16) for k in range(4)]
         cells.append(tuple(v))
+    if len(cells) != w * h: raise ValueError('truncated case')
     rows = [cells[y*w:(y+1)*w] for y in range(h)]
     return {'ice': ice, 'lossless': lossless, 'sauce': sauce, 'w': w, 'h': h, 'rows': rows}
 
@@ -361,7 +362,7 @@ def correspondence(ctx):
     dis = []
     for i, b in enumerate(bufs):
         d = compare(b, impl[i], model[i])
-        if d: dis.append({'case': cases[i][:4000], 'impl': str(impl[i])[:300], 'model': str(model[i])[:300], 'why': d})
+        if d: dis.append({'case': cases[i], 'impl': str(impl[i])[:300], 'model': str(model[i])[:300], 'why': d})
     for k in range(len(lc)):
         i = len(bufs) + k
         if impl[i] is None or impl[i][0] != 'ok' or model[i] is None or impl[i][1] != model[i]:
